@@ -131,6 +131,21 @@ def generate_zonedb(
             len(buf_sizes), max_size,
         )
 
+        # ExtendedZoneProcessor keeps its Transitions in a pool of fixed size
+        # (ExtendedZoneProcessor::kMaxTransitions). A zone which needs a
+        # larger pool would lose transitions or overrun the pool at run time,
+        # so refuse to generate it instead of emitting a transitionBufSize
+        # that the processor cannot provide.
+        if tzdb['scope'] == 'extended' and max_size > EXTENDED_MAX_TRANSITIONS:
+            too_big = sorted(
+                name for name, size in buf_sizes.items()
+                if size > EXTENDED_MAX_TRANSITIONS)
+            raise Exception(
+                f"Transition buffer size {max_size} exceeds "
+                f"ExtendedZoneProcessor::kMaxTransitions "
+                f"({EXTENDED_MAX_TRANSITIONS}) for zone(s): {too_big}"
+            )
+
         generator = ArduinoGenerator(
             invocation=invocation,
             db_namespace=db_namespace,
@@ -141,6 +156,10 @@ def generate_zonedb(
         generator.generate_files(output_dir)
     else:
         raise Exception("Unrecognized language '%s'" % language)
+
+
+# Must be the same as ExtendedZoneProcessor::kMaxTransitions.
+EXTENDED_MAX_TRANSITIONS = 8
 
 
 def main() -> None:
